@@ -196,6 +196,8 @@ def plib(p):
 # holding them - without being the same value.  Set by checks that compare results type-sensitively
 # or on rows where int and float arithmetic differ; 0 keeps the pure-integer language (C12).
 LIT_KINDS = 0.0
+# Probability that a membership test uses a long (20-120 items) all-literal sequence.
+LONG_SEQ = 0.02
 
 
 def other_kind(v, rng):
@@ -255,7 +257,10 @@ def gen_p(rng, cols, depth=2, wild_ranges=False, leaf_lits=True):
             return ["plit", rng.random() < 0.5]
         if r2 < 0.88:
             return ["inrange", gen_e(rng, cols, 1), gen_range(rng, wild_ranges), rng.choice(["factory", "factory", "ctor"])]
-        if rng.random() < 0.35:
+        if LONG_SEQ and rng.random() < LONG_SEQ:
+            # scale: a long all-literal sequence (an IN list with dozens of bind parameters)
+            items = [["lit", rng.randint(-40, 40)] for _ in range(rng.choice([20, 45, 120]))]
+        elif rng.random() < 0.35:
             items = [["lit", gen_lit(rng, -3, 3)] for _ in range(rng.randint(0, 3))]  # all-literal sequence
         else:
             items = [gen_e(rng, cols, 1) for _ in range(rng.randint(0, 3))]
